@@ -31,6 +31,8 @@ SCAFFOLD = [('S', {
     'E1': '=LEFT(A1,B1)', 'F1': '=RIGHT(A1,B1)', 'G1': '=MID(A1,B1,C1)', 'H1': '=LEFT(A1)', 'I1': '=RIGHT(A1)',
     'J1': '=LEFT(A1,B1)&MID(A1,B1+1,D1)',
     # arguments that are expressions / bracketed / read through a formula cell
+    # the text argument is an operator expression that starts with a cell reference
+    'AC1': '=LEFT(A1&"zq",B1)', 'AD1': '=RIGHT("zq"&A1,B1)', 'AE1': '=MID(A1&"zq",B1,C1)', 'AF1': '=LEFT(A1&A1,B1)', 'AG1': '=RIGHT(A1&"zq",B1)',
     'X1': '=A1', 'Y1': '=LEFT(A1&"",B1+0)', 'Z1': '=RIGHT((A1),(B1))', 'AA1': '=MID(X1,B1*1,C1+0)', 'AB1': '=LEFT(X1,B1)&""',
     'K1': 'a', 'L1': '=SEARCH(K1,A1)', 'M1': '=SEARCH(K1,A1,B1)',
     'N1': '=VALUE(A1)', 'N2': '=VALUE(A1)=A1', 'N3': '=VALUE(A1+0)',
@@ -231,11 +233,19 @@ def run_slice_ov(cases, stats):
             judge_slices(t, n, {'LEFT': o[0], 'RIGHT': o[1]}, 'ov', stats, i, vio)
             judge_slices(t, n, {'LEFT': o[2], 'RIGHT': o[3]}, 'ov-expression-arguments', stats, i, vio)
             judge_slices(t, n, {'LEFT': o[4]}, 'ov-through-cell', stats, i, vio)
+            # the text argument is an operator expression that starts (ends) with the cell
+            o = S.run(cls, [('A1', t), ('B1', n)], ['AC1', 'AD1', 'AF1', 'AG1'], stats)
+            judge_slices(t + 'zq', n, {'LEFT': o[0], 'RIGHT': o[3]}, 'ov-joined-text-argument', stats, i, vio)
+            judge_slices('zq' + t, n, {'RIGHT': o[1]}, 'ov-joined-text-argument', stats, i, vio)
+            judge_slices(t + t, n, {'LEFT': o[2]}, 'ov-joined-text-argument', stats, i, vio)
             for k in range(-1, L + 3):
                 o = S.run(cls, [('A1', t), ('B1', k), ('C1', n)], ['G1', 'AA1'], stats)
                 stats['cases'] += 1
                 judge_mid(t, k, n, o[0], 'ov', stats, i, vio)
                 judge_mid(t, k, n, o[1], 'ov-expression-arguments', stats, i, vio)
+                if k <= 2:
+                    o, = S.run(cls, [('A1', t), ('B1', k), ('C1', n)], ['AE1'], stats)
+                    judge_mid(t + 'zq', k, n, o, 'ov-joined-text-argument', stats, i, vio)
             if 0 <= n < L:
                 o, = S.run(cls, [('A1', t), ('B1', n), ('D1', L)], ['J1'], stats)
                 judge_identity(t, n, o, 'ov', stats, i, vio)
